@@ -11,7 +11,8 @@ import subprocess
 from typing import Dict, List, Optional, Tuple
 
 from ..framework import Check, PY, VERIF, impl_env, SRC
-from ..defs_common import FAM, run_impl, regen_or_report, native_names
+from ..defs_common import FAM, run_impl, native_names
+from ..defs_reg_common import regen_cone
 
 THEOREMS = [
     "C13_depends_only", "C13_raw_shapes", "C13_injective_partial", "C13_injective_refuted", "C13_every_edit_changes_text",
@@ -276,9 +277,13 @@ def check_client_source() -> List[str]:
 
 def run(chk: Check):
     rng = random.Random(chk.seed)
-    if not regen_or_report(chk):
-        return
-    chk.prove(FAM, "Props.C13", THEOREMS, extra_targets=["Model/HashText.vo", "Lib/Sha256.vo"])
+    regen_cone(chk, ())
+    proved = chk.prove(FAM, "Props.C13", THEOREMS, extra_targets=["Model/HashText.vo", "Lib/Sha256.vo"])
+    if proved and chk.tier == "thorough":
+        okc, outc = FAM.coqchk("Props.C13")
+        chk.cov["coqchk"] = outc[-1500:]
+        if not okc:
+            chk.broken_obligation("coqchk rejected Props.C13", outc[-600:])
     natives = native_names()
     thorough = chk.tier == "thorough"
     consts, aliases, structs = gen_library(rng)
